@@ -81,7 +81,7 @@ type frame struct {
 func NewInterp(prog *ssa.Program, ex *Explorer) *Interp {
 	it := &Interp{prog: prog, ex: ex, info: map[*ssa.Function]*fnInfo{},
 		fnSeen: map[*ssa.Function]map[int]bool{}, extSeen: map[string]int{}, cutHits: map[string]int{},
-		maxDepth: 400, maxSteps: 20_000_000}
+		maxDepth: 400, maxSteps: 4_000_000}
 	it.rm = newRModel(it)
 	return it
 }
